@@ -586,12 +586,26 @@ func helperReaches(b *Backend, from, to string, seen map[string]bool) bool {
 // ResolveStack returns the templates stored into a converter stack, given the
 // origin of a read from it ("field:F[*]" or "field:F[*].sub").
 func (x *Extractor) ResolveStack(origin string) []Tmpl {
+	var out []Tmpl
+	for _, s := range x.ResolveStackStores(origin) {
+		out = append(out, s.T)
+	}
+	return out
+}
+
+// StackStore is one template pushed onto a converter stack and the function pushing it.
+type StackStore struct {
+	T  Tmpl
+	Fn *ssa.Function
+}
+
+func (x *Extractor) ResolveStackStores(origin string) []StackStore {
 	m := regexp.MustCompile(`^field:(\w+)\[\*\](?:\.(\w+))?$`).FindStringSubmatch(origin)
 	if m == nil {
 		return nil
 	}
 	field, sub := m[1], m[2]
-	var out []Tmpl
+	var out []StackStore
 	for _, fn := range x.W.Funcs(x.Role) {
 		for _, b := range fn.Blocks {
 			for _, ins := range b.Instrs {
@@ -609,7 +623,7 @@ func (x *Extractor) ResolveStack(origin string) []Tmpl {
 					if x.isConvPtr(fa.X.Type()) || !x.isElemOfField(fa.X.Type(), field) {
 						continue
 					}
-					out = append(out, asTmpl(x.eval(st.Val, x.TopEnv(fn))))
+					out = append(out, StackStore{asTmpl(x.eval(st.Val, x.TopEnv(fn))), fn})
 					continue
 				}
 				fa, ok := st.Addr.(*ssa.FieldAddr)
@@ -622,10 +636,10 @@ func (x *Extractor) ResolveStack(origin string) []Tmpl {
 						if l, ok := x.eval(call.Call.Args[1], x.TopEnv(fn)).(ListV); ok {
 							if l.IsFinite {
 								for _, el := range l.Finite {
-									out = append(out, asTmpl(el))
+									out = append(out, StackStore{asTmpl(el), fn})
 								}
 							} else if l.Elem != nil {
-								out = append(out, asTmpl(l.Elem))
+								out = append(out, StackStore{asTmpl(l.Elem), fn})
 							}
 						}
 					}
